@@ -51,6 +51,13 @@ class TextData(Data):
                     [v.decode("utf-8") if isinstance(v, bytes) else v for v in values]
                 )
 
+            if isinstance(values, str) and getattr(self.association, "name", None) in (
+                "VERTEX",
+                "CELL",
+            ):
+                # A channel with a single entry, not a text attached to the object
+                values = np.array([values])
+
             if isinstance(values, (np.ndarray, str, type(None))):
                 self._values = values
 
